@@ -3,6 +3,7 @@ import re
 
 from cv import err, flow, pair, rules
 from cv.rules import events_of, order_after_success
+from props import common
 
 from props import errscope
 
@@ -40,7 +41,7 @@ def run(ck, w):
 
     # ---- 1. PAIR(FileCombiner, buf, queue) -----------------------------------------------------------
     methods = [n for n, b in lib.bodies.items() if b.kind == "assoc_fn" and (b.self_ty or "") == "backup::FileCombiner"]
-    ck.floor("C04.1.n", "FileCombiner methods analysed", len(methods), 4)
+    ck.floor("C04.1.n", "FileCombiner methods analysed (flush, drain, push_file at least)", len(methods), 3)
     touched = 0
     for m in sorted(methods):
         b = lib.main_body(m)
@@ -207,3 +208,4 @@ def run(ck, w):
     o = ck.ob("C04.5", "store_or_deduplicate updates the present set and the content cache only after the write succeeded")
     ins = [e for e in sd.events if e.bb in sd.live and re.search(r"HashSet::<T, S, A>::insert$|LruCache::<K, V, S>::(put|push)$", e.name)]
     order_after_success(ck, o, sd, events_of(lib, sd, "transport::Transport::write"), ins, "Transport::write", "cache update")
+    common.protocol_dispatch_by_name(ck, w, "C04.2c")
